@@ -502,12 +502,28 @@ func c06Suite(c *core.Collector, seed uint64, batch int, conns, nreq int, wraps 
 		wg.Add(1)
 		go run(batch*1000+900+i, 66000, 1, true, false)
 	}
+	// tail bursts: request + non-replying messages in one write; the reply must not wait for later traffic
+	for i := 0; i < 2+conns/6; i++ {
+		wg.Add(1)
+		go func(i int) {
+			defer wg.Done()
+			viol, incon, n := c06TailBurst(srv.Addr, batch*1000+800+i, seed, 12)
+			c.Evals(int64(n))
+			c.Count("tail_bursts_answered_without_further_traffic", int64(n))
+			if incon {
+				c.Inconclusive()
+			}
+			for _, v := range viol {
+				c.Violate(v[0], v[1], nil)
+			}
+		}(i)
+	}
 	wg.Wait()
 }
 
 func c06Worker(c *core.Collector, x *Ctx) {
 	c.Rule = "per connection a PRNG-determined sequence of terminal messages over every default-registered 0x0xxx/0x1xxx ID, response types and unsupported IDs, both header versions, request serials incl. 0 and 65535, phones with leading zeros, " +
-		"0x0102 with matching / non-matching / too-short bodies, sub-packaged requests (packet 1 first, rest shuffled); pacing: one frame per write, pipelined random segments, mixed; one connection with 66000 pipelined heartbeats (serial wrap). " +
+		"0x0102 with matching / non-matching / too-short bodies, sub-packaged requests (packet 1 first, rest shuffled); pacing: one frame per write, pipelined random segments, mixed; one connection with 66000 pipelined heartbeats (serial wrap); tail bursts (a request followed in the same write by response-type messages or by fragments 1..n-1 of an upload: its reply must arrive without further traffic). " +
 		"evaluation = one request; non-trivial = request that owes a reply and whose reply was checked; distinct by hash of (connection, id, serial, body)"
 	conns := c.N(16, 64)
 	nreq := c.N(300, 3000)
@@ -517,4 +533,5 @@ func c06Worker(c *core.Collector, x *Ctx) {
 	}
 	c06Suite(c, c.Seed, x.Batch, conns, nreq, wraps)
 	c.Floor("replies_checked", 1000)
+	c.Floor("tail_bursts_answered_without_further_traffic", 20)
 }
